@@ -92,6 +92,8 @@ type scenario struct {
 	Ops     []op      `json:"ops"`
 	// AuditDown: the audit sink of every node is unreachable for the whole scenario
 	AuditDown bool `json:"auditdown"`
+	// RealRPC: the nodes reach each other through the project's rpc package (see node.World.RealRPC)
+	RealRPC bool `json:"realrpc"`
 }
 
 type runner struct {
@@ -302,6 +304,7 @@ func (x *runner) run(idx int, s scenario) {
 	x.stall = false
 	x.lenient = s.Lenient
 	w.AuditDown = s.AuditDown
+	w.RealRPC = s.RealRPC
 	x.tdSeen = nil
 	defer w.Close()
 	if len(s.Nodes) == 0 {
@@ -549,7 +552,9 @@ func (x *runner) step(o op) {
 			}
 		}
 		if id < 0 {
-			x.r.Emit(rec.Ev{"op": "harness-error", "what": "ackmsg: payload " + o.P + " was never delivered to c" + strconv.Itoa(o.C)})
+			// the script answers a delivery that everything before it (a publish to a subscribed, connected session, then
+			// quiescence) entitles the client to: its absence is the broker's doing and no specification step explains it
+			x.r.Emit(rec.Ev{"op": "delivery.missing", "c": o.C, "p": o.P})
 			x.stall = true
 			return
 		}
@@ -705,6 +710,9 @@ func (x *runner) step(o op) {
 	case "faillog":
 		w.Nodes[o.N].Log.FailNext(o.K)
 		x.r.Emit(rec.Ev{"op": "inject", "what": "log.append", "n": o.N, "k": o.K})
+	case "slowlog":
+		w.Nodes[o.N].Log.SlowNext(o.K, time.Duration(o.Ms)*time.Millisecond)
+		x.r.Emit(rec.Ev{"op": "inject", "what": "slow.append", "n": o.N, "k": o.K, "ms": o.Ms})
 	case "failrpc":
 		w.Nodes[o.From].FailRPC(o.To, o.On)
 		x.r.Emit(rec.Ev{"op": "inject", "what": "rpc", "from": o.From, "to": o.To, "on": o.On})
